@@ -297,12 +297,19 @@ def execute(case, keep_text=False):
                  'expected for post-processing, %d were broadcast'
                  % (k_proc, len(bl)))
             raise StopIteration
-        pool = set(tuple(float(x) for x in s) for s in samples)
+        pool = {tuple(float(x) for x in s): i for i, s in enumerate(samples)}
         if len(set(p for p, w in bl)) != len(bl) or \
                 not all(p in pool for p, w in bl):
             viol('sample-count', 'profiles-distinct', 'broadcast list is not a '
                  'set of distinct posterior samples')
             raise StopIteration
+        for p, w in bl:
+            want = float(weights[pool[p]])
+            if abs(w - want) > 1e-12 * want + 2e-300:
+                viol('sample-weight', 'profiles', 'sample %d is post-processed '
+                     'with weight %r, its posterior weight is %r'
+                     % (pool[p], w, want))
+                raise StopIteration
         seen = []
         for r in range(Rn):
             seen += phases[r]['profiles_seen']
